@@ -50,6 +50,12 @@ class Beh(base.Behaviour):
         return []
 
     def disconnect(self, sid, reason):
+        if self.dh == 'raise_type_once':
+            # an application bug (TypeError) inside the handler, for the first session that ends only
+            if not getattr(self, '_raised', False):
+                self._raised = True
+                return [('raise_type',)]
+            return []
         if self.dh == 'raise':
             return [('raise', 'disconnect handler failure')]
         if self.dh == 'yield':
@@ -98,6 +104,10 @@ class Events(core.Scenario):
         self.B = peer.sid_of(peer.open_polling(w))
         self.pollB = peer.poll(w, self.B)
         self.pollA = peer.poll(w, self.A) if tr == 'polling' and p.get('poll', True) else None
+        if p.get('bystander_first'):
+            # another session ends first, and the application's handler fails on it
+            extra_sid = peer.sid_of(peer.open_polling(w))
+            peer.post(w, extra_sid, '1')
         # a message before anything else: must be delivered, exactly once, before the disconnect
         if tr == 'polling':
             peer.post(w, self.A, '4hello')
@@ -256,6 +266,8 @@ def param_list(ctx):
                 if impl == 'async':
                     ps.append({'impl': impl, 'transport': tr, 'causes': cs, 'dh': 'record', 'handlers': 'plain_functions'})
                     ps.append({'impl': impl, 'transport': tr, 'causes': cs, 'dh': 'raise', 'handlers': 'plain_functions'})
+            for cs in ([causes[0]], ['api_disc'], ['silence']):
+                ps.append({'impl': impl, 'transport': tr, 'causes': cs, 'dh': 'raise_type_once', 'bystander_first': True})
             ps.append({'impl': impl, 'transport': tr, 'causes': ['silence'], 'dh': 'record', 'reject_first': True})
             ps.append({'impl': impl, 'transport': tr, 'causes': [causes[0]], 'dh': 'record', 'reject_first': True})
             # a MESSAGE that may be delivered while the disconnect handler of another cause is suspended
